@@ -1206,8 +1206,11 @@ class Emitter:
             # the member-cleanup registered in scopes[0] is only used on exception paths (exc_check / throw)
         else:
             self.s(body[0], 0)
-        if self.loopno != len(self.fspec.get('loops', {})) and self.fspec.get('loops') is not None and any(l not in self.loops_seen for l in self.fspec.get('loops', {})):
-            raise Unsupported('spec names loop ordinals %s but %s has loops %s' % (sorted(self.fspec['loops']), q, self.loops_seen))
+        missing = [l for l in (self.fspec.get('loops') or {}) if l not in self.loops_seen]
+        if missing:
+            # the code has fewer loops than the contract file names (a loop was removed or restructured): the orphaned loop contracts are
+            # dropped, the function's postconditions are still checked on the new body; the job's vacuity guard reports the missing obligations
+            self.log.append('loop contract(s) %s of %s have no loop in the current code (dropped)' % (missing, q))
         text = head + '\n/*@CONTRACT %s@*/\n' % cname + '\n'.join(self.out) + '\n'
         return text, {'cname': cname, 'qual': q, 'loops': self.loopno, 'throws': sorted(self.exceptions),
                       'range': self.src_range(n), 'proto': head}
